@@ -47,14 +47,25 @@ def _mk(desc, k):
         else:
             kw.setdefault('message', 'msg%d' % k)
         kw.setdefault('valence', -1)
-        return Feedback(**kw)
+        fb = Feedback(**kw)
+        try:
+            fb._verif_req = dict(kw)       # the reference model reads what was asked for
+        except Exception:
+            pass
+        return fb
     f = getattr(cmds, kind)
     if kind in ('gently', 'explain', 'guidance', 'compliment'):
         kw.setdefault('label', '%s%d' % (kind, k))
-        return f('m%s%d' % (kind, k), **kw)
-    if kind == 'give_partial':
-        return f(0.25, **kw)
-    return f(**kw)
+        fb = f('m%s%d' % (kind, k), **kw)
+    elif kind == 'give_partial':
+        fb = f(0.25, **kw)
+    else:
+        fb = f(**kw)
+    try:
+        fb._verif_req = dict(kw)           # what the call asked for wins over what the object recorded
+    except Exception:
+        pass
+    return fb
 
 
 # interaction alphabet: every rank class, every priority shift, every eligibility kind
@@ -127,8 +138,10 @@ def _apply_sups(sups):
         cmds.suppress(c, l, f)
 
 
-def _judge(ctx, fbs, sups, what):
+def _judge(ctx, fbs, sups, what, resolve_simple=None, resolve_full=None):
     """Resolve with the real resolvers and compare against the reference."""
+    simple_resolve = resolve_simple or simple.resolve
+    full_resolve = resolve_full or full.resolve
     exp = ref.reference(fbs, sups)
     report = MAIN_REPORT
     canon = repr([(type(f).__name__, f.label, f.category, f.priority, f.kind, bool(f), f.muted,
@@ -138,7 +151,7 @@ def _judge(ctx, fbs, sups, what):
     ctx.set_sample({'feedbacks': [ref.describe(f) for f in fbs], 'suppressions': sups})
     try:
         ctx.step('simple.resolve')
-        r = simple.resolve()
+        r = simple_resolve()
         got = dict(label=r.label, title=r.title, message=r.message, category=r.category)
     except Exception as e:  # the property: resolving never raises
         import traceback
@@ -188,7 +201,7 @@ def _judge(ctx, fbs, sups, what):
     # resolving again must deliver the same feedback
     try:
         ctx.step('simple.resolve (again)')
-        r2 = simple.resolve()
+        r2 = simple_resolve()
         got2 = dict(label=r2.label, title=r2.title, message=r2.message, category=r2.category)
         if got2 != got:
             ctx.fail({'symptom': 'second resolve of the same report differs'}, case=what, first=got, second=got2)
@@ -197,7 +210,7 @@ def _judge(ctx, fbs, sups, what):
     # full resolver: nothing ineligible among the used feedback
     try:
         ctx.step('full.resolve')
-        rf = full.resolve()
+        rf = full_resolve()
         for f in rf.used:
             if f.else_message and not bool(f):
                 continue   # documented: an untriggered feedback with an else_message is kept as a positive
@@ -221,6 +234,60 @@ def body_grid(ctx):
     ctx.step(('create', d2))
     fbs = [_mk(d1, 0), _mk(d2, 1)]
     _judge(ctx, fbs, [], {'feedbacks': [d1, d2], 'suppressions': []})
+
+
+SUP_CATS = [c for c in CATS if c is not None] + ['parser', 'verifier', 'analyzer', 'Style', 'zzz']
+
+
+def body_category_suppression(ctx):
+    """One feedback of every category against a suppression of every category name (and every documented alias):
+    exactly the feedback of that category is hidden."""
+    a = CATS[ctx.choose(len(CATS), 'cat1')]
+    b = CATS[ctx.choose(len(CATS), 'cat2')]
+    sc = SUP_CATS[ctx.choose(len(SUP_CATS), 'suppressed-category')]
+    form = ctx.choose(2, 'with-label')
+    cmds.clear_report()
+    d1, d2 = dict(category=a, label='La'), dict(category=b, label='Lb')
+    fbs = [_mk(d1, 0), _mk(d2, 1)]
+    sups = [(sc, 'La' if form else True, None)]
+    ctx.step(('suppress', sups))
+    _apply_sups(sups)
+    _judge(ctx, fbs, sups, {'feedbacks': [d1, d2], 'suppressions': sups})
+
+
+def make_private_report(alpha):
+    """The same judgement on a report object of the caller's own, handed to every call (feedback constructors,
+    suppress, resolve by keyword or by position), while the global report holds a decoy that would win."""
+    usable = [d for d in alpha if d.get('via') in (None, 'gently', 'explain', 'guidance', 'compliment', 'set_correct', 'give_partial')]
+
+    def body(ctx):
+        from pedal.core.report import Report
+        L = ctx.choose(2, 'len') + 1
+        seq = [ctx.choose(len(usable), 'fb%d' % k) for k in range(L)]
+        sups = SUPS_SMALL[ctx.choose(len(SUPS_SMALL), 'sups')]
+        how = ('keyword', 'positional')[ctx.choose(2, 'report-passed-by')]
+        cmds.clear_report()
+        Feedback(label='decoy', category='syntax', message='decoy on the global report', priority='highest')
+        mine = Report()
+        fbs = []
+        for k, di in enumerate(seq):
+            d = dict(usable[di])
+            d['report'] = mine
+            ctx.step(('create on own report', usable[di]))
+            fb = _mk(d, k)
+            if getattr(fb, '_verif_req', None):
+                fb._verif_req.pop('report', None)
+            fbs.append(fb)
+        for (c, l, f) in sups:
+            cmds.suppress(c, l, f, report=mine)
+        if how == 'keyword':
+            rs, rf = (lambda: simple.resolve(report=mine)), (lambda: full.resolve(report=mine))
+        else:
+            rs, rf = (lambda: simple.resolve(mine)), (lambda: full.resolve(mine))
+        _judge(ctx, fbs, sups, {'feedbacks': [usable[i] for i in seq], 'suppressions': sups, 'own_report': how}, rs, rf)
+        for sig, det in ctx.fails:
+            sig['report'] = 'own report passed by ' + how
+    return body
 
 
 def make_interaction(max_len, alpha, full_sups_up_to):
@@ -265,4 +332,8 @@ def phases(tier):
               describe='every ordered pair of plain feedbacks over category x priority'),
         Phase('interaction', inter, setup=_setup,
               describe='all creation sequences x suppression sets x placement'),
+        Phase('category-suppression', body_category_suppression, setup=_setup,
+              describe='feedback of every category pair x suppression of every category name and alias'),
+        Phase('own-report', make_private_report(alpha), setup=_setup,
+              describe='sequences <=2 on a caller-owned Report passed to every call (decoy on the global report)'),
     ]
